@@ -295,6 +295,11 @@ def string_cases(tier):
                            ("padright", ["x", "3", " ab "], "xab"), ("#replace", ["a_b\n", "_\n", "x"], "axb"),
                            ("#sub", [" abc ", " 1 ", " 1 "], "b")):
         yield "{{%s:%s}}" % (fn, "|".join(args)), want
+    # arithmetic errors are error elements (so that #iferror sees them), reported once
+    for t, want in (("{{#iferror:{{#expr:1/0}}|err|ok}}", "err"), ("{{#iferror:{{#expr:1 mod 0}}|err|ok}}", "err"),
+                    ("{{#iferror:{{#expr:sqrt -1}}|err|ok}}", "err"), ("{{#iferror:{{#expr:1/1}}|err|ok}}", "ok"),
+                    ("{{#iferror:{{#expr:1/0*2}}|err|ok}}", "err"), ("{{#iferror:{{#expr:2*(3 div 0)+1}}|err|ok}}", "err")):
+        yield t, want
     # #ifexpr: any non-zero value is true
     for e, want in (("0.5", "y"), ("1/2", "y"), ("-0.5", "y"), ("0", "n"), ("0.0", "n"), ("1", "y"), ("2-2", "n"), ("10/4", "y"), ("", "n")):
         yield "{{#ifexpr:%s|y|n}}" % e, want
@@ -441,7 +446,7 @@ def work(payload, skip, report):
                 got = "EXC " + type(ex).__name__
             acc.case()
             is_err = 'class="error"' in got or got.startswith("EXC")
-            if ok and is_err:
+            if ok and is_err and "Divide by zero" not in got:     # (1 fmod not 1: well-formed, but undefined)
                 acc.violation("wellformed_expr_has_value", {"input": "{{#expr:" + text + "}}"}, got[:120], "a number")
             if not ok and not is_err:
                 acc.violation("malformed_expr_is_error", {"input": "{{#expr:" + text + "}}"}, got[:120], "an expression error element")
